@@ -63,7 +63,14 @@ def main():
         codes = (np.arange(n) * 7 + 3) % ncat
         df = pd.DataFrame({"a": pd.Categorical.from_codes(codes, labels), "b": np.arange(n, dtype="int64")})
         fn0 = os.path.join(tmp, "own.parquet")
-        fastparquet.write(fn0, df[["a"]] if c.get("single", True) else df)
+        from fastparquet import writer as _w
+        dpv0 = _w.DATAPAGE_VERSION
+        _w.DATAPAGE_VERSION = c.get("dpv", 1)
+        try:
+            fastparquet.write(fn0, df[["a"]] if c.get("single", True) else df,
+                              row_group_offsets=c.get("rg_rows") or n)
+        finally:
+            _w.DATAPAGE_VERSION = dpv0
         pf = fastparquet.ParquetFile(fn0)
         raw = open(fn0, "rb").read()
         flen = struct.unpack("<I", raw[-8:-4])[0]
